@@ -63,8 +63,18 @@ RecProgs(k) ==
                                                Ret(Bin("+", Id("t"), Id("r")))>>)),
                Text(<<"[">>), Emit(Call("g", <<IntL(k), Str(<<"o">>)>>)), Text(<<"]">>)>>,
     twice |-> <<Let("e", FnLit(<<"m">>, <<Ret(Id("m"))>>)),
-               Text(<<"[">>), Emit(Call("e", <<Call("e", <<IntL(k)>>)>>)), Emit(Call("e", <<Str(<<"x">>)>>)), Emit(Call("e", <<IntL(k)>>)), Text(<<"]">>)>> ]
-RecNames == {"sum", "down", "fib", "after", "twice"}
+               Text(<<"[">>), Emit(Call("e", <<Call("e", <<IntL(k)>>)>>)), Emit(Call("e", <<Str(<<"x">>)>>)), Emit(Call("e", <<IntL(k)>>)), Text(<<"]">>)>>,
+    \* first-class use: ONE call site (q(v) inside a) that is reached with different function values
+    apply |-> <<Let("a", FnLit(<<"q", "v">>, <<Ret(Call("q", <<Id("v")>>))>>)),
+                Let("inc", FnLit(<<"m">>, <<Ret(Bin("+", Id("m"), IntL(1)))>>)), Let("dbl", FnLit(<<"m">>, <<Ret(Bin("*", Id("m"), IntL(2)))>>)),
+                Text(<<"[">>), Emit(Call("a", <<Id("inc"), IntL(k)>>)), Text(<<",">>), Emit(Call("a", <<Id("dbl"), IntL(k)>>)), Text(<<",">>), Emit(Call("a", <<Id("inc"), IntL(k)>>)), Text(<<"]">>)>>,
+    compose |-> <<Let("c", FnLit(<<"p", "q", "v">>, <<Ret(Call("p", <<Call("q", <<Id("v")>>)>>))>>)),
+                Let("inc", FnLit(<<"m">>, <<Ret(Bin("+", Id("m"), IntL(1)))>>)), Let("dbl", FnLit(<<"m">>, <<Ret(Bin("*", Id("m"), IntL(2)))>>)),
+                Text(<<"[">>), Emit(Call("c", <<Id("inc"), Id("dbl"), IntL(k)>>)), Text(<<",">>), Emit(Call("c", <<Id("dbl"), Id("inc"), IntL(k)>>)), Text(<<"]">>)>>,
+    \* the name at a call site is bound to another function between two executions of that call (loop variable)
+    rebind |-> <<Let("inc", FnLit(<<"m">>, <<Ret(Bin("+", Id("m"), IntL(1)))>>)), Let("dbl", FnLit(<<"m">>, <<Ret(Bin("*", Id("m"), IntL(2)))>>)),
+                Text(<<"[">>), Emit(For("", "w", Arr(<<Id("inc"), Id("dbl"), Id("inc")>>), <<Emit(Call("w", <<IntL(k)>>)), Text(<<";">>)>>)), Text(<<"]">>)>> ]
+RecNames == {"sum", "down", "fib", "after", "twice", "apply", "compose", "rebind"}
 RECURSIVE Fib(_)
 Fib(k) == IF k < 2 THEN k ELSE Fib(k - 1) + Fib(k - 2)
 RECURSIVE Rep(_, _)
@@ -75,6 +85,9 @@ RecText(nm, k) ==
     [] nm = "fib"  -> <<"[">> \o IntChars(Fib(k)) \o <<"]">>
     [] nm = "after" -> <<"[">> \o (IF k = 0 THEN <<"o">> ELSE <<"o">> \o Rep("i", k)) \o <<"]">>
     [] nm = "twice" -> <<"[">> \o IntChars(k) \o <<"x">> \o IntChars(k) \o <<"]">>
+    [] nm = "apply" -> <<"[">> \o IntChars(k + 1) \o <<",">> \o IntChars(2 * k) \o <<",">> \o IntChars(k + 1) \o <<"]">>
+    [] nm = "compose" -> <<"[">> \o IntChars(2 * k + 1) \o <<",">> \o IntChars(2 * (k + 1)) \o <<"]">>
+    [] nm = "rebind" -> <<"[">> \o IntChars(k + 1) \o <<";">> \o IntChars(2 * k) \o <<";">> \o IntChars(k + 1) \o <<";", "]">>
 
 VARIABLES n, links, dflt, args, use, res
 vars == <<n, links, dflt, args, use, res>>
